@@ -63,7 +63,15 @@ Size(e) == CASE e.k = "leaf" -> 0
              [] e.k \in {"un", "not"} -> 1 + Size(e.e)
              [] e.k = "tern" -> 1 + Size(e.c) + Size(e.a) + Size(e.b)
 
-Skeletons == {e \in SkI(NOps) \cup SkB(NOps) : Size(e) = NOps}
+\* NOps = 4 stands for ONE family of four-operator expressions, not for all of them: an operand that needs parentheses and
+\* whose own two operands need parentheses too - (x) o2 (y) under a unary sign, or on either side of a third operator
+NestOps == {"+", "-", "*", "%", "|", "&"}
+BinI(o, x, y) == [k |-> "bin", t |-> "int", op |-> o, l |-> x, r |-> y]
+Nested4 ==
+  LET inner == {BinI(o2, BinI(o3, LeafI, LeafI), BinI(o4, LeafI, LeafI)) : o2 \in NestOps, o3 \in NestOps, o4 \in NestOps} IN
+  {BinI(o1, LeafI, x) : o1 \in NestOps, x \in inner} \cup {BinI(o1, x, LeafI) : o1 \in NestOps, x \in inner}
+  \cup {[k |-> "un", t |-> "int", op |-> o, e |-> x] : o \in Unary, x \in inner}
+Skeletons == IF NOps = 4 THEN Nested4 ELSE {e \in SkI(NOps) \cup SkB(NOps) : Size(e) = NOps}
 
 -----------------------------------------------------------------------------
 (* leaves named in order of appearance in the TEXT: ints a b c d, bools p q r s; every second int leaf *)
